@@ -98,6 +98,7 @@ type cer struct {
 	fee   []string // fee recipient per validator
 	gas   uint64
 	errs  []error
+	dir   string // artifacts of the ceremony and of later generations (removed with the ceremony)
 
 	// artifacts as loaded with the repo's loaders
 	lockRaw [][]byte
@@ -296,7 +297,7 @@ func (ce *cer) run() {
 		ce.errs = errs
 		if allNil(errs) {
 			ce.load(dir)
-			_ = os.RemoveAll(dir)
+			ce.dir = dir // kept: the cluster-changing protocols run on what the nodes wrote
 			ce.ok = true
 			return
 		}
@@ -312,4 +313,11 @@ func b01(b bool) string {
 		return "1"
 	}
 	return "0"
+}
+
+func (ce *cer) cleanup() {
+	if ce != nil && ce.dir != "" {
+		_ = os.RemoveAll(ce.dir)
+		ce.dir = ""
+	}
 }
